@@ -59,7 +59,16 @@ def extract(path):
             raise RuntimeError("%s::%s (line %d): expected exactly one load of %s, found %d" % (cls, fn, line, other, len(loads)))
         if fn != "peek" and len(stores) != 1:
             raise RuntimeError("%s::%s (line %d): expected exactly one store of %s, found %d" % (cls, fn, line, own, len(stores)))
-        table.append(dict(cls=cls, fn=fn, line=line, load=order_of(loads[0]), store=order_of(stores[0]) if stores else None))
+        # textual order: the publishing store must come after the last access to the slot storage
+        publish_last = True
+        if stores:
+            m_store = re.search(re.escape(own) + r"\s*\.\s*store\s*\(", body)
+            slot_pos = [m.start() for m in re.finditer(r"_buffer\s*\[", body)]
+            if not slot_pos:
+                raise RuntimeError("%s::%s (line %d): no slot access found" % (cls, fn, line))
+            publish_last = m_store.start() > max(slot_pos)
+        table.append(dict(cls=cls, fn=fn, line=line, load=order_of(loads[0]), store=order_of(stores[0]) if stores else None,
+                          publish_last=publish_last))
     need = {(c, f) for c in ("RingBuffer", "DynamicRingBuffer") for f in PUSH | POP}
     have = {(t["cls"], t["fn"]) for t in table}
     if need - have:
@@ -68,7 +77,9 @@ def extract(path):
         PushTailAcq=all(t["load"] in ACQ for t in table if t["fn"] in PUSH),
         PushHeadRel=all(t["store"] in REL for t in table if t["fn"] in PUSH),
         PopHeadAcq=all(t["load"] in ACQ for t in table if t["fn"] in POP),
-        PopTailRel=all(t["store"] in REL for t in table if t["fn"] in POP and t["store"] is not None))
+        PopTailRel=all(t["store"] in REL for t in table if t["fn"] in POP and t["store"] is not None),
+        PushPublishLast=all(t["publish_last"] for t in table if t["fn"] in PUSH),
+        PopPublishLast=all(t["publish_last"] for t in table if t["fn"] in POP))
     return consts, table
 
 
